@@ -177,12 +177,20 @@ def f_frag( ctx ):
     psrc = ctx.src( 'server/enip/parser.py' )
     ds = psrc.get( 'typed_data.datasize' )
     rets = [ r_ for r_ in ast.walk( ds ) if isinstance( r_, ast.Return ) ]
-    SZ = ds.args.args[2].arg if len( ds.args.args ) > 2 else None
-    def exact_( e ):
-        return SZ is not None and isinstance( e, ast.BinOp ) and isinstance( e.op, ast.Mult ) and (
-            ( txt( e.left ).endswith( '.struct_calcsize' ) and dotted( e.right ) == SZ ) or ( txt( e.right ).endswith( '.struct_calcsize' ) and dotted( e.left ) == SZ ))
-    if len( rets ) == 1 and exact_( rets[0].value ):
-        res.ok( psrc, rets[0], 'typed_data.datasize( type, n ) = n * struct size of the type, exactly' )
+    # ( by value: the body is evaluated for the element sizes 1, 2, 4, 8 and counts 0, 1, 3, 7 )
+    from .fold import run_block, Record, NoFold as NoFold_
+    dpar = [ a_.arg for a_ in ds.args.args if a_.arg not in ( 'cls', 'self' ) ]
+    exact = True
+    try:
+        for code, width in (( 0xC1, 1 ), ( 0xC3, 2 ), ( 0xC4, 4 ), ( 0xCB, 8 )):
+            for cnt in ( 0, 1, 3, 7 ):
+                out_ = run_block( ds.body, { 'cls.TYPES_SUPPORTED': { code: Record( struct_calcsize=width, tag_type=code ) }, dpar[0]: code, dpar[1]: cnt }, ignore_calls=( 'log', ))
+                if not ( out_.kind == 'return' and out_.value == width * cnt ):
+                    exact = False
+    except ( NoFold_, IndexError ) as exc:
+        raise AnalysisError( 'typed_data.datasize not foldable: %s' % exc )
+    if exact:
+        res.ok( psrc, rets[0] if rets else ds, 'typed_data.datasize( type, n ) = n * struct size of the type, exactly' )
     else:
         res.bad( psrc, rets[0] if rets else ds, 'typed_data.datasize does not return exactly <type>.struct_calcsize * size', 'Logix.reply_elements converts the byte offset of a Write Tag Fragmented with this size: rounded or padded, tiles of one-octet types land on the wrong elements and a tile beyond the end of the tag is acknowledged' )
     # a write does not begin inside an element: its remainder is asserted 0 on the write branch ( it is silently dropped otherwise: the data
